@@ -188,7 +188,7 @@ class Gen:
                 alts = [{"key": 0, "alt": Int("", r.choice([1, 2]))}, {"key": 1, "alt": Data("", Const(r.choice([1, 2])))},
                         {"key": 2, "alt": {"k": "Ref", "name": "", "cls": self.new_class(depth - 1), "over": [], "mv": NOMV}}]
                 fields.append({"k": "RefSel", "name": name, "key": EF(r.choice(ints)), "alts": alts[:r.randint(2, 3)],
-                               "form": r.choice(["chooses", "lambda"]), "dflt": {"t": "int", "v": 0}, "mv": NOMV})
+                               "form": r.choice(["chooses", "lambda"]), "dflt": {"t": "int", "i": 0}, "mv": NOMV})
             else:
                 fields.append(Int(name))
         if r.random() < 0.15 and self.profile in ("position", "mixed", "c01"):
